@@ -576,6 +576,7 @@ pub enum Val {
     Lvl(emit::Level),
     Tid(u128),
     Sid(u64),
+    Kind(emit::Kind),
     Sv(Tree),
 }
 
@@ -608,6 +609,7 @@ impl Real {
             Real::Plain(Val::Str(s)) => Value::from(s.as_str()),
             Real::Plain(Val::Disp(s)) => Value::from_display(s),
             Real::Plain(Val::Lvl(l)) => emit::value::ToValue::to_value(l),
+            Real::Plain(Val::Kind(k)) => emit::value::ToValue::to_value(k),
             Real::Plain(Val::Sv(t)) => Value::from_sval(t),
             Real::Dbg(d) => Value::from_debug(d),
             Real::Err(c) => Value::capture_error(c),
@@ -641,6 +643,7 @@ impl Val {
             Val::Lvl(l) => Sexp::tagged("lvl", vec![Sexp::atom(level_name(*l))]),
             Val::Tid(n) => Sexp::tagged("tid", vec![Sexp::num(n)]),
             Val::Sid(n) => Sexp::tagged("sid", vec![Sexp::num(n)]),
+            Val::Kind(k) => Sexp::tagged("kind", vec![Sexp::atom(if *k == emit::Kind::Span { "span" } else { "metric" })]),
             Val::Sv(t) => {
                 let disp = Value::from_sval(t).to_string();
                 Sexp::tagged("sv", vec![t.to_sexp(), Sexp::str(&disp)])
@@ -682,6 +685,11 @@ impl Val {
                 }
                 Some(Val::Sid(n))
             }
+            ("kind", 1) => Some(Val::Kind(match args[0].as_atom()? {
+                "span" => emit::Kind::Span,
+                "metric" => emit::Kind::Metric,
+                _ => return None,
+            })),
             ("sv", 2) => {
                 let t = Tree::parse(&args[0])?;
                 // the Display text is an output of sval_fmt; the case must carry the real one
